@@ -113,6 +113,7 @@ type CheckConfig struct {
 	Procs     int
 	Budget    time.Duration
 	Root      string // /verif
+	Out       string // where evidence/ and replays/ are written (default Root)
 	Exe       string
 	Scale     float64
 	Hang      time.Duration
@@ -476,7 +477,7 @@ func minimiseAndWrite(cfg CheckConfig, v Result) string {
 	if strings.HasPrefix(viol.Kind, "outputs-differ") && strings.Contains(viol.Detail, "repeat") {
 		rf.ReplayMode = "repeat-until-divergence"
 	}
-	dir := filepath.Join(cfg.Root, "replays")
+	dir := filepath.Join(cfg.Out, "replays")
 	os.MkdirAll(dir, 0755)
 	path := filepath.Join(dir, fmt.Sprintf("%s-%d-%s.json", cfg.Prop, v.Seed, viol.Kind))
 	b, _ := json.MarshalIndent(rf, "", " ")
